@@ -1758,6 +1758,272 @@ def corr_multi(ck: Ck, via: bool, merge_first: bool) -> None:
         ck.extra['multi_disagreement'] = {'scenario': rows[bad[0]][0], 'impl': rows[bad[0]][1]}
 
 
+# =============================================================================================== type text of keyvalue / IO lines
+def impl_type_of(which: str, raw: str, ignore: bool = True) -> Optional[tuple[bool, Any]]:
+    """What the real KVDef._parse ('kv') / IODef._parse ('io') make of the PAREN_ARGS text `raw`: (reportable, _type), None when
+    they raise.  The type text is not a function of its own in the implementation, so the parsers are run on the shortest token
+    lists that are complete lines for every type (plain, spawnflags `= [ ]`, choices `: "n" = [ ]`)."""
+    import warnings
+    import srctools.fgd as F
+    from srctools.tokenizer import IterTokenizer, Token as T
+    lst = [(T.EQUALS, '='), (T.NEWLINE, '\n'), (T.BRACK_OPEN, '['), (T.NEWLINE, '\n'), (T.BRACK_CLOSE, ']'), (T.NEWLINE, '\n')]
+    streams = [[(T.PAREN_ARGS, raw), (T.NEWLINE, '\n')], [(T.PAREN_ARGS, raw)] + lst, [(T.PAREN_ARGS, raw), (T.COLON, ':'), (T.STRING, 'n')] + lst]
+    for st in streams if which == 'kv' else streams[:1]:
+        tok = IterTokenizer(iter(st if which == 'kv' else [(T.STRING, 'Name')] + st), 'c16', F.FGDParseError)
+        try:
+            with warnings.catch_warnings():
+                warnings.simplefilter('ignore')
+                if which == 'kv':
+                    _, o = F.KVDef._parse(F.FGD(), 'name', tok, 'c16', ignore)
+                    return bool(o.reportable), o._type
+                _, o2 = F.IODef._parse(F.FGD(), tok, ignore)
+                return False, o2._type
+        except Exception:   # noqa: BLE001
+            continue
+    return None
+
+
+def coq_chars(x: str) -> str:
+    return '[' + ';'.join(str(ord(c)) for c in x) + ']'
+
+
+def random_case(rng: random.Random, s: str) -> str:
+    r = rng.random()
+    if r < 0.25:
+        return s
+    if r < 0.45:
+        return s.upper()
+    if r < 0.6:
+        return s.title()
+    return ''.join(c.upper() if rng.random() < 0.5 else c.lower() for c in s)
+
+
+def gen_type_text(rng: random.Random) -> tuple[str, str]:
+    """A text for the parentheses of a keyvalue / input / output line and its class: a known type name in some spelling
+    (any case, blanks around it, a leading '*'), or a custom name (mixed case, digits, underscores)."""
+    from srctools.fgd import VALUE_TYPE_LOOKUP
+    r = rng.random()
+    if r < 0.45:
+        body, cls = random_case(rng, rng.choice(sorted(VALUE_TYPE_LOOKUP))), 'known'
+    elif r < 0.8:
+        body, cls = rng.choice(CUSTOM_TYPES), 'custom'
+    elif r < 0.95:
+        body = rng.choice('ABCXYZabcxyz_') + ''.join(rng.choice('ABCDEFxyzuvw0123456789_') for _ in range(rng.randint(0, 10)))
+        cls = 'custom' if body.casefold() not in VALUE_TYPE_LOOKUP and body != 'ehandle' else 'known'
+    else:
+        return rng.choice(['', ' ', '*', '* Foo', '**Foo', 'ehandle', 'EHANDLE', ' ehandle ', '*ehandle', 'two words', 'Two  Words ']), 'edge'
+    if rng.random() < 0.15:
+        body, cls = '*' + body, cls + '+star'
+    if rng.random() < 0.3:
+        body = rng.choice(['', ' ', '\t', '  ']) + body + rng.choice(['', ' ', '\t '])
+        cls += '+blanks'
+    return body, cls
+
+
+def coq_ty(t: Any) -> str:
+    from srctools.fgd import ValueTypes
+    return 'Known ' + coq_chars(t.value) if isinstance(t, ValueTypes) else 'Custom ' + coq_chars(t)
+
+
+TYPE_PRE = """Definition ty_eqb (a b : ty) : bool :=
+  match a, b with Known x, Known y | Custom x, Custom y => str_eqb x y | _, _ => false end.
+Definition res_eqb (a b : bool * ty) : bool := Bool.eqb (fst a) (fst b) && ty_eqb (snd a) (snd b).
+(* with ignore_unknown_valuetype=False an unknown type raises *)
+Definition strict (r : bool * ty) : option (bool * ty) := match snd r with Known _ => Some r | Custom _ => None end.
+Definition ores_eqb (a b : option (bool * ty)) : bool :=
+  match a, b with Some x, Some y => res_eqb x y | None, None => true | _, _ => false end.
+Definition KV (raw : list N) := trun lower vt_lookup_tab kv_type_prog raw.
+Definition IO (raw : list N) := trun lower vt_lookup_tab io_type_prog raw.
+"""
+
+
+def corr_type_text(ck: Ck) -> None:
+    """Fmt/FgdTypeText.v with the programs and the table read from the source against the implementation: for generated texts between
+    the parentheses (known names in any case, with blanks and a leading '*', custom names with mixed case / digits / underscores, edge
+    cases) KVDef._parse and IODef._parse, with and without ignore_unknown_valuetype, == trun ... kv_type_prog / io_type_prog; and the
+    PAREN_ARGS token the real Tokenizer reads from what KVDef.export / IODef.export write for a custom type == kv_type_text / io_type_text."""
+    from srctools.fgd import IODef, KVDef, ValueTypes
+    from srctools.tokenizer import Token as T
+    rng = ck.rng
+    raws = ['integer', ' *Integer ', 'BOOL', 'Locale_ID', 'BitField32', 'EHANDLE', 'ehandle', ' ehandle', '*X', '', '*', '* Foo', 'Target_Destination']
+    classes = ['corpus'] * len(raws)
+    for _ in range(ck.budget(160, 1500)):
+        raw, cls = gen_type_text(rng)
+        raws.append(raw)
+        classes.append(cls)
+    rows_kv, rows_io, rows_kv_s, rows_io_s, seen = [], [], [], [], set()
+    for raw, cls in zip(raws, classes):
+        if raw in seen or not raw.isascii():
+            continue
+        seen.add(raw)
+        ck.count('corr_type_text')
+        ck.hist('type_text_class', cls)
+        if any(c.isupper() for c in raw):
+            ck.seen(('typetext', raw))
+        for which, loose, strict_rows in (('kv', rows_kv, rows_kv_s), ('io', rows_io, rows_io_s)):
+            r = impl_type_of(which, raw, True)
+            if r is not None:       # (a complete line for every type exists, so the permissive parsers do not raise)
+                loose.append('(%s, (%s, %s))' % (coq_chars(raw), coq_bool(r[0]), coq_ty(r[1])))
+            else:
+                loose.append('(%s, (false, Custom [0;0;0]))' % coq_chars(raw))
+            r2 = impl_type_of(which, raw, False)
+            strict_rows.append('(%s, %s)' % (coq_chars(raw), 'None' if r2 is None else 'Some (%s, %s)' % (coq_bool(r2[0]), coq_ty(r2[1]))))
+    w_rows = []
+    for name in CUSTOM_TYPES + ['lower_case_name', 'MiXeD_9']:
+        for which in ('kv', 'io'):
+            buf = io.StringIO()
+            if which == 'kv':
+                KVDef('key', name, 'Key').export(buf)
+            else:
+                IODef('Fire', name).export(buf, 'input')
+            parens = [v for t, v in fgd_tokens(buf.getvalue()) if t is T.PAREN_ARGS]
+            w_rows.append('(%s, %s)' % (coq_chars(name), coq_chars(parens[0] if len(parens) == 1 else '<no single PAREN_ARGS token>')))
+    for v in ValueTypes:
+        buf = io.StringIO()
+        KVDef('key', v, 'Key', val_list=[] if v.has_list else None).export(buf)
+        parens = [x for t, x in fgd_tokens(buf.getvalue()) if t is T.PAREN_ARGS]
+        w_rows.append('(%s, %s)' % (coq_chars(v.value), coq_chars(parens[0] if len(parens) == 1 else '<no single PAREN_ARGS token>')))
+    exprs = [
+        'bad_idx (fun c : list N * (bool * ty) => res_eqb (KV (fst c)) (snd c)) 0 ' + coq_list(rows_kv),
+        'bad_idx (fun c : list N * (bool * ty) => res_eqb (IO (fst c)) (snd c)) 0 ' + coq_list(rows_io),
+        'bad_idx (fun c : list N * option (bool * ty) => ores_eqb (strict (KV (fst c))) (snd c)) 0 ' + coq_list(rows_kv_s),
+        'bad_idx (fun c : list N * option (bool * ty) => ores_eqb (strict (IO (fst c))) (snd c)) 0 ' + coq_list(rows_io_s),
+        # writers: custom names and canonical names are written as they are
+        'bad_idx (fun c : list N * list N => str_eqb (kv_type_text (Custom (fst c))) (snd c)) 0 ' + coq_list(w_rows),
+    ]
+    vals = ck.coq_eval(IMPORTS + ['SV.Fmt.FgdTypeText'], exprs, name='typetext', preamble=PRE + TYPE_PRE, timeout=600)
+    if vals is None:
+        ck.obligation('correspondence:text_type_text', False, 'model could not be evaluated')
+        ck.tie_broken.append('correspondence type text: model evaluation failed')
+        return
+    bad = [parse_coq_N_list(v) for v in vals]
+    names = ['KVDef._parse', 'IODef._parse', 'KVDef._parse strict', 'IODef._parse strict', 'export']
+    nbad = sum(len(b) for b in bad)
+    ck.obligation('correspondence:text_type_text', nbad == 0,
+                  f'{len(rows_kv)} texts between the parentheses x (KVDef._parse, IODef._parse) x (ignore_unknown_valuetype on / off) and '
+                  f'{len(w_rows)} written type texts == Fmt/FgdTypeText.v with the programs and VALUE_TYPE_LOOKUP read from the source: '
+                  + ', '.join(f'{n}: {len(b)} disagreements' for n, b in zip(names, bad)))
+    if nbad:
+        ck.tie_broken.append('correspondence type text (Fmt/FgdTypeText.v vs fgd.py)')
+        k = next(i for i, b in enumerate(bad) if b)
+        rows = [rows_kv, rows_io, rows_kv_s, rows_io_s, w_rows][k]
+        ck.extra['type_text_disagreement'] = {'site': names[k], 'row': rows[bad[k][0]][:400]}
+
+
+def type_text_fgd(lines: list[tuple[str, str, str]]) -> str:
+    """A hand-written FGD: one entity whose keyvalue / input / output lines carry the given texts between the parentheses."""
+    out = ['@PointClass = c16_types : "types"', '\t[']
+    for i, (cat, raw, _) in enumerate(lines):
+        if cat == 'keyvalue':
+            out.append(f'\tkey{i}({raw}) : "Key {i}" : "d{i}" : "a keyvalue"')
+        else:
+            out.append(f'\t{cat} Io{i}({raw}) : "an {cat}"')
+    out += ['\t]', '']
+    return '\n'.join(out)
+
+
+def check_type_text(lines: list[tuple[str, str, str]]) -> list[tuple[str, str]]:
+    """[(key, what)] for a hand-written FGD with the given type texts: every custom name must be kept as written (stripped), every
+    spelling of a known name must give that member; export -> parse must give the same definitions and the same text again."""
+    from srctools.fgd import VALUE_TYPE_LOOKUP, ValueTypes
+    from srctools.tokenizer import TokenSyntaxError
+    text = type_text_fgd(lines)
+    try:
+        f1 = parse_text(text, True)
+    except (TokenSyntaxError, ValueError, KeyError) as e:
+        return [('type-text-parse-error', f'hand-written FGD with custom value types does not parse with ignore_unknown_valuetype=True: {str(e)[:200]}')]
+    ent = f1.entities['c16_types']
+    out = []
+    for i, (cat, raw, _) in enumerate(lines):
+        name = f'key{i}' if cat == 'keyvalue' else f'io{i}'
+        tm = getattr(ent, cat + 's').get(name)
+        if not tm:
+            out.append((f'type-text-line-lost:{cat}', f'the {cat} line with type text {raw!r} is not in the parsed entity'))
+            continue
+        got = next(iter(tm.values()))._type
+        body = raw.strip()
+        if cat == 'keyvalue' and body.startswith('*'):
+            body = body[1:]
+        want: Any = ValueTypes.EHANDLE if (cat != 'keyvalue' and body == 'ehandle') else VALUE_TYPE_LOOKUP.get(body.casefold(), body)
+        if got != want:
+            kind = 'known-type-not-recognised' if isinstance(want, ValueTypes) else 'custom-type-name-not-kept'
+            out.append((f'type-text-{kind}:{cat}', f'{cat} line `({raw})` parsed with ignore_unknown_valuetype=True has type {got!r}, expected {want!r}'))
+    if out:
+        return out
+    t1 = f1.export()
+    try:
+        f2 = parse_text(t1, True)
+    except (TokenSyntaxError, ValueError, KeyError) as e:
+        return [('type-text-export-unparseable', f'export of the parsed FGD does not parse: {str(e)[:200]}')]
+    c1, c2 = canon_ent(ent), canon_ent(f2.entities['c16_types'])
+    d = diff_fields(c1, c2)
+    if d:
+        bad = [(a, b) for f in d for a, b in zip(c1[f], c2[f]) if a != b][:2]
+        return [(f'type-text-definition-changed:{"+".join(d)}', f'export -> parse changed {d}: {bad}')]
+    t2 = f2.export()
+    if t1 != t2:
+        l1, l2 = t1.splitlines(), t2.splitlines()
+        j = next((j for j, (x, y) in enumerate(zip(l1, l2)) if x != y), min(len(l1), len(l2)))
+        return [('type-text-text-not-fixed-point', f'second export differs: {l1[j:j + 1]} vs {l2[j:j + 1]}')]
+    return []
+
+
+def search_type_text(ck: Ck) -> None:
+    """Text -> parse -> export -> parse -> export for hand-written entities whose keyvalue, input and output lines carry custom value
+    type names and mixed-case spellings of the known ones, through FGD.parse_file(ignore_unknown_valuetype=True); and the strict
+    parser must refuse exactly the unknown names."""
+    from srctools.fgd import VALUE_TYPE_LOOKUP
+    from srctools.tokenizer import TokenSyntaxError
+    rng = ck.rng
+    for i in range(ck.budget(60, 800)):
+        lines = []
+        for _ in range(rng.randint(1, 6)):
+            cat = rng.choice(['keyvalue', 'input', 'output'])
+            for _try in range(20):
+                raw, cls = gen_type_text(rng)
+                body = raw.strip().lstrip('*').strip()
+                # a name the format cannot carry is not an input of this search: empty, blanks inside, list types on a keyvalue
+                # line without list, a '*' that is not the single leading report mark of a keyvalue
+                if cls == 'edge' and raw.strip() not in ('ehandle', 'EHANDLE'):
+                    continue
+                if not body or ' ' in body or '\t' in body or (cat == 'keyvalue' and body.casefold() in ('choices', 'flags')):
+                    continue
+                if '*' in raw and (cat != 'keyvalue' or raw.strip().count('*') != 1 or raw.strip()[1:] != raw.strip()[1:].strip()):
+                    continue
+                break
+            else:
+                continue
+            lines.append((cat, raw, cls))
+        if not lines:
+            continue
+        ck.count('search_type_text')
+        for cat, raw, cls in lines:
+            ck.hist('type_text_lines', f'{cat}:{cls.split("+")[0]}')
+        if any(c.isupper() for _, raw, _ in lines for c in raw):
+            ck.seen(('typetextfgd', tuple(lines)))
+        found = check_type_text(lines)
+        # the strict parser: a file with an unknown name must be refused, a file without must parse
+        unknown = [raw for cat, raw, _ in lines
+                   if (raw.strip()[1:] if cat == 'keyvalue' and raw.strip().startswith('*') else raw.strip()).casefold() not in VALUE_TYPE_LOOKUP
+                   and not (cat != 'keyvalue' and raw.strip() == 'ehandle')]
+        try:
+            parse_text(type_text_fgd(lines), False)
+            if unknown:
+                found.append(('type-text-strict-parser-accepts-unknown-type', f'FGD.parse_file without ignore_unknown_valuetype accepted {unknown[:2]}'))
+        except TokenSyntaxError as e:
+            if not unknown:
+                found.append(('type-text-strict-parser-refuses-known-type', f'FGD.parse_file refuses a file with known types only: {str(e)[:160]}'))
+        for key, what in found:
+            small = list(lines)
+            for ln in list(small):           # shrink: drop lines while the same key is reported
+                cand = [x for x in small if x is not ln]
+                if cand and any(k == key for k, _ in check_type_text(cand)):
+                    small = cand
+            if not any(k == key for k, _ in check_type_text(small)):
+                small = list(lines)
+            ck.violation(key, what, {'kind': 'type_text', 'lines': [list(x) for x in small], 'text': type_text_fgd(small)})
+
+
 # =============================================================================================== canonical definitions
 def canon_attr(v: Any, io_kind: bool, choice_norm: bool = True) -> tuple:
     from srctools.fgd import VALUE_TO_IO_DECAY, KVDef, ValueTypes
@@ -1821,13 +2087,25 @@ def diff_fields(a: dict, b: dict) -> list[str]:
     return [k for k in a if a[k] != b.get(k)]
 
 
-def parse_text(text: str):
+def parse_text(text: str, unknown_types: bool = False):
+    """FGD.parse_file on a text; unknown_types=True: ignore_unknown_valuetype=True (custom value types are kept as strings)."""
+    import warnings
     from srctools.fgd import FGD
     from srctools.filesys import VirtualFileSystem
     vfs = VirtualFileSystem({'c16.fgd': text})
     f = FGD()
-    f.parse_file(vfs, vfs['c16.fgd'])
+    if unknown_types:
+        with warnings.catch_warnings():
+            warnings.simplefilter('ignore')
+            f.parse_file(vfs, vfs['c16.fgd'], ignore_unknown_valuetype=True)
+    else:
+        f.parse_file(vfs, vfs['c16.fgd'])
     return f
+
+
+def has_custom_types(fgd: Any) -> bool:
+    return any(isinstance(v._type, str) for e in fgd.entities.values() for cat in ('keyvalues', 'inputs', 'outputs')
+               for tm in getattr(e, cat).values() for v in tm.values())
 
 
 def roundtrip_fgd(fgd: Any, opts: dict) -> dict:
@@ -1837,8 +2115,9 @@ def roundtrip_fgd(fgd: Any, opts: dict) -> dict:
         t1 = fgd.export(**opts)
     except Exception as e:   # noqa: BLE001
         return {'stage': 'export', 'error': f'{type(e).__name__}: {e}'[:300]}
+    unknown = has_custom_types(fgd)     # custom value types need the parser option that keeps them
     try:
-        f2 = parse_text(t1)
+        f2 = parse_text(t1, unknown)
     except (TokenSyntaxError, ValueError, KeyError) as e:
         return {'stage': 'parse', 'error': f'{type(e).__name__}: {str(e)[:240]}', 'text': t1}
     custom = opts['custom_syntax']
@@ -1979,6 +2258,9 @@ KV_NAMES = ['targetname', 'speed', 'model', 'skin', 'StartDisabled', 'message', 
 DEFAULTS = ['', '', '0', '1', '-5', '10', '0 0 0', '255 255 255 200', 'models/props/box.mdl', 'Some text', '1.5', '-1.25', 'no way',
             'sprites/glow01.vmt', 'a-b', '0.0']
 RISKY_DEFAULTS = ['say "hi"', 'materials\\tools\\nodraw', "it's", 'two\nlines', 'tab\there', '\\']
+# custom (unknown to srctools) value type names: mixed case, digits, underscores; none is a spelling of a known type or of `ehandle`
+CUSTOM_TYPES = ['Locale_ID', 'BitField32', 'ultra_void', 'int1024', 'Mode_Enum', 'EHANDLE_2', 'Thing_Handle', 'X', 'vector3D', 'String_T',
+                'INTEGERS', 'Bool_', 'a.b', 'Flags2', 'EHandle']
 TAGSETS = [frozenset(), frozenset({'TF2'}), frozenset({'HL2', 'EP1'}), frozenset({'!P2'}), frozenset({'+CSGO', 'SRCTOOLS'}),
            frozenset({'SINCE_L4D'})]
 
@@ -2031,6 +2313,10 @@ def gen_fgd(rng: random.Random, plain: bool, ck: Optional[Ck] = None):
                            frozenset() if plain else rng.choice(TAGSETS)) for v in vals]
                     kv = KVDef(name, typ, txt('short', 'empty', 'special'), rng.choice(DEFAULTS), txt('empty', 'short', 'long'), vl or None)
                 else:
+                    if rng.random() < 0.12:
+                        typ = rng.choice(CUSTOM_TYPES)       # kept as a string: KVDef.custom_type
+                        if ck is not None:
+                            ck.hist('gen_custom_type', 'keyvalue')
                     kv = KVDef(name, typ, txt('short', 'short', 'empty', 'special'),
                                rng.choice(DEFAULTS if plain or rng.random() < 0.85 else RISKY_DEFAULTS),
                                txt('empty', 'empty', 'short', 'special', 'long', 'cut', 'nospace'))
@@ -2046,6 +2332,10 @@ def gen_fgd(rng: random.Random, plain: bool, ck: Optional[Ck] = None):
                     typ = rng.choice(list(ValueTypes))
                     if typ.has_list:
                         typ = ValueTypes.VOID
+                    if rng.random() < 0.15:
+                        typ = rng.choice(CUSTOM_TYPES)
+                        if ck is not None:
+                            ck.hist('gen_custom_type', cat)
                     getattr(e, cat).setdefault(name.casefold(), {})[tags] = IODef(name, typ, txt('empty', 'short', 'special', 'long'))
         if not plain and rng.random() < 0.5:
             e.resources = [Resource(rng.choice(['models/a.mdl', 'Weapon.Fire', 'materials/x y.vmt', 'scripts/"q".nut', 'a\\b.vmt']),
@@ -2096,6 +2386,8 @@ def fgd_cause(fgd: Any, opts: dict) -> str:
             return classify_longstring(ext, t, out, '\t')
     if any(c in d for d in raw for c in '"\\\n\r\t'):
         return 'special-character-in-default-or-choice-value'
+    if has_custom_types(fgd):
+        return 'custom-value-type'
     if any(e.is_alias for e in fgd.entities.values()) and custom:
         return 'alias-entity'
     return 'other'
@@ -2183,7 +2475,7 @@ def search_generated(ck: Ck) -> None:
         except Exception as e:   # noqa: BLE001
             exported = f'<export raises {e!r}>'
         ck.violation(gen_failure_key(r2, small, opts), f'generated FGD, export({opt_name(opts)}) -> parse -> export: {describe_gen_failure(r2)}',
-                     {'kind': 'fgd_text', 'opts': opts, 'exported': exported[:6000],
+                     {'kind': 'fgd_text', 'opts': opts, 'exported': exported[:6000], 'unknown_types': has_custom_types(small),
                       'entities': {k: canon_ent(e, opts['custom_syntax']) for k, e in small.entities.items()}})
 
 
@@ -2617,6 +2909,12 @@ INSTANCE_OBLIGATIONS = {
     'text_line_cfg_ok_is_these': 'Bool.eqb (line_cfg_ok gen_line_cfg) ((colons_before_desc_without_default gen_line_cfg =? 2)%nat '
                                  '&& bool_default_filled gen_line_cfg && res_block_if_defined gen_line_cfg)',
     'text_empty_resources_need_the_block': 'empty_resources_need_block',
+    'text_kv_type_program_is_the_model': 'kv_type_prog_ok',
+    'text_io_type_program_is_the_model': 'io_type_prog_ok',
+    'text_kv_unknown_type_kept_verbatim': 'kv_unknown_type_kept_verbatim',
+    'text_io_unknown_type_kept_verbatim': 'io_unknown_type_kept_verbatim',
+    'text_type_table_canonical_names_read_back': 'type_table_ok',
+    'text_type_fold_then_fallback_is_refuted': 'fold_then_fallback_breaks',
     'lazy_bases_resolved_through_get_ent': 'lazy_via_get_ent',
     'lazy_map_lookup_is_refuted': 'map_lookup_breaks',
     'multi_db_engine_dbase_keeps_first_definition': 'merge_is_first engine_dbase_merge',
@@ -2813,6 +3111,7 @@ def run(ck: Ck) -> None:
              ('corr_binary_records', corr_binary_records, (data, tb)),
              ('line_data_obligations', line_data_obligations, ()),
              ('corr_lines', corr_lines, ()),
+             ('corr_type_text', corr_type_text, ()),
              ('corr_multi', corr_multi, (via, bool(multi_side.get('effective_first', True)))),
              ('corr_bits', corr_bits, ())],
         ])
@@ -2821,6 +3120,7 @@ def run(ck: Ck) -> None:
         timed('search_longstring', search_longstring, ck)
         timed('search_bundled', search_bundled, ck)
         timed('search_generated', search_generated, ck)
+        timed('search_type_text', search_type_text, ck)
         timed('search_binary', search_binary, ck, data)
         timed('search_binary_small', search_binary_small, ck, tb['names'])
         timed('search_lazy', search_lazy, ck, data, tb)
@@ -2851,6 +3151,13 @@ def run(ck: Ck) -> None:
     if any('resources' in k and (k.startswith('generated-fgd') or k.startswith('bundled-db')) for k in keys):
         ck.explain('instance:text_resources_block_written_when_defined')
         ck.explain('instance:text_line_cfg_ok_is_these')
+    if any(k.startswith('type-text-') or 'custom-value-type' in k for k in keys):
+        ck.explain('instance:text_kv_type_')
+        ck.explain('instance:text_io_type_')
+        ck.explain('instance:text_kv_unknown_type')
+        ck.explain('instance:text_io_unknown_type')
+        ck.explain('instance:text_type_')
+        ck.explain('correspondence:text_type_text')
     if any(k.startswith('generated-fgd') or k.startswith('bundled-db') for k in keys):
         ck.explain('instance:text_kv_')
         ck.explain('instance:text_bool_')
@@ -2860,7 +3167,9 @@ def run(ck: Ck) -> None:
     # a translator that failed closed at a site is explained by a concrete violation of the mechanism that site belongs to
     site_of = (('engine_dbase', 'lazy-multi-db'), ('engine_def', 'lazy-multi-db'), ('add_engine_database', 'lazy-multi-db'), ('EngineDB', 'lazy-'), ('_parse_block', 'lazy-'), ('get_fgd', 'lazy-'), ('serialise', 'binary-'), ('BinStrDict', 'binary-'),
                ('_write_longstring', 'longstring:'), ('_fgd_escape', 'longstring:'), ('ESCAPE', 'longstring:'),
-               ('KVDef.export', 'generated-fgd'), ('IODef.export', 'generated-fgd'), ('EntityDef.export', 'generated-fgd'))
+               ('KVDef.export', 'generated-fgd'), ('IODef.export', 'generated-fgd'), ('EntityDef.export', 'generated-fgd'),
+               ('KVDef._parse', 'type-text-'), ('IODef._parse', 'type-text-'), ('VALUE_TYPE_LOOKUP', 'type-text-'), ('ValueTypes', 'type-text-'),
+               ('KVDef._parse', 'generated-fgd'), ('IODef._parse', 'generated-fgd'))
     for tie in ck.tie_broken:
         if tie.startswith('translator '):
             if any(word in tie and any(k.startswith(pref) for k in keys) for word, pref in site_of):
@@ -2888,10 +3197,16 @@ def replay(data: dict) -> int:
         print('read back :', 'PARSE ERROR' if back is None else repr(back[-80:]))
         print('round trip:', ok)
         return 0 if ok else 1
+    if kind == 'type_text':
+        print(r['text'])
+        found_t = check_type_text([tuple(x) for x in r['lines']])
+        for k, t in found_t:
+            print('VIOLATION', k, ':', t)
+        return 1 if found_t else 0
     if kind == 'fgd_text':
         print(r['exported'])
         try:
-            f = parse_text(r['exported'])
+            f = parse_text(r['exported'], bool(r.get('unknown_types')))
             print('parsed entities:', list(f.entities))
             print('re-export equal:', f.export(**r['opts']) == r['exported'])
         except Exception as e:   # noqa: BLE001
